@@ -17,10 +17,10 @@ import (
 // oracle ownership: which oracle names count as violations of which property.
 var e1Owners = map[string][]string{
 	"C01": {"delivery", "flush", "completeness", "fault-send-ok"},
-	"C02": {"crosstalk", "foreign-error", "isolation", "handler-twice", "probe", "client-stuck", "server-dropped"},
+	"C02": {"crosstalk", "foreign-error", "isolation", "handler-twice", "probe", "client-stuck", "server-dropped", "next-rpc-stuck"},
 	"C04": {"cancel-hang", "cancel-error", "cancel-later-op", "cancel-peer", "probe", "close-hang"},
 	"C05": {"fault-hang", "fault-closed", "fault-delivery", "panic", "fault-newstream", "fault-send-ok"},
-	"C06": {"probe", "stuck-connection"},
+	"C06": {"probe", "next-rpc-stuck"},
 	"C07": {"wire", "concurrent-io", "wire-trailing"},
 	"C10": {"handler-error", "spurious-error", "probe", "client-stuck"},
 	"C11": {"metadata", "metadata-wire"},
@@ -511,14 +511,8 @@ func (x *e1) checkHangs(phase string) {
 	_, trClose := x.did["tr-close"]
 	// cancelling the server's context closes the transport only in hard-cancel mode
 	_, serveCancel := x.did["serve-cancel"]
-	if stalledNow && (connClose || trClose || (serveCancel && !x.prog.Cfg.SoftS)) {
-		x.viol("close-hang", fmt.Sprintf("blocked-forever after close calls=[%s]", describeSet(calls)),
-			fmt.Sprintf("phase=%s (stalled) census=%v lib=%v", phase, calls, x.libCensus()))
-	}
-	if stalledNow {
-		return
-	}
-	// after an I/O fault or a close nothing may stay inside a call
+	// a server whose reader is parked behind a message its handler never receives
+	// cannot notice that the peer went away; a handler waiting there is not counted
 	relevant := calls
 	if x.serverBlind() {
 		relevant = nil
@@ -529,6 +523,14 @@ func (x *e1) checkHangs(phase string) {
 		}
 		x.res.probe("peer_close_unnoticed_behind_unread_message")
 	}
+	if stalledNow && (connClose || trClose || (serveCancel && !x.prog.Cfg.SoftS)) && len(relevant) > 0 {
+		x.viol("close-hang", fmt.Sprintf("blocked-forever after close calls=[%s]", describeSet(relevant)),
+			fmt.Sprintf("phase=%s (stalled) census=%v lib=%v", phase, calls, x.libCensus()))
+	}
+	if stalledNow {
+		return
+	}
+	// after an I/O fault or a close nothing may stay inside a call
 	if x.ioFired() && len(relevant) > 0 {
 		x.viol("fault-hang", fmt.Sprintf("blocked-forever after transport fault calls=[%s]", describe(relevant)),
 			fmt.Sprintf("phase=%s census=%v lib=%v", phase, calls, x.libCensus()))
